@@ -24,6 +24,8 @@ class VLoop(asyncio.SelectorEventLoop):
         self.chooser = chooser or (lambda gates, has_timer: 0 if gates else None)
         self.idle_steps = 0
         self.max_idle_steps = 2_000_000
+        self.quiet_steps = 0           # consecutive idle steps in which only a timer fired (no gate existed)
+        self.max_quiet_steps = 20_000  # e.g. only the 10 s progress logger is left alive: the run is stuck
         self.main_task = None
         self.on_idle = None
 
@@ -66,6 +68,12 @@ class VLoop(asyncio.SelectorEventLoop):
                 if self.main_task is not None and not self.main_task.done():
                     raise Deadlock("no ready callback, no timer, no gate, main task unfinished")
             else:
+                if live:
+                    self.quiet_steps = 0
+                else:
+                    self.quiet_steps += 1
+                    if self.quiet_steps > self.max_quiet_steps and self.main_task is not None and not self.main_task.done():
+                        raise Deadlock(f"only timers fired for {self.quiet_steps} consecutive idle steps (virtual time {self._vt:.0f}), main task unfinished")
                 pick = self.chooser([l for (l, _) in live], has_timer)
                 if pick is None or not live:
                     if has_timer:
